@@ -147,6 +147,18 @@ def push (C : Cfg) (st : St) (b : B) : Option St :=
     if !lo.isEmpty then advance C { st with ls := s' } lo none 3
     else some { st with ls := s', pending := true }
 
+/-- the same byte when the all-at-end-of-input rule does not fire: derivre's `ForcedEOI` test is
+syntactic (the derivative *is* the empty string), so it can miss a derivative that merely *accepts* only
+the empty string (`ε & x*`); the lexeme then stays open and ends one byte later through the
+dying-vector path.  Used by the driver to offer the tie both views of the last byte. -/
+def pushLate (C : Cfg) (st : St) (b : B) : Option St :=
+  let s' := step C st.ls b
+  if s'.isEmpty then push C st b
+  else
+    let lz := (s'.filter (fun e => (C.lx e.1).isLazy && accAt (C.lx e.1).dfa e.2)).map (·.1)
+    if !lz.isEmpty then push C st b
+    else some { st with ls := s', pending := true }
+
 def run (C : Cfg) : St → List B → Option St
   | st, [] => some st
   | st, b :: bs => match push C st b with
